@@ -490,6 +490,9 @@ fn ser<T: Serialize>(x: &T) -> Result<String, String> {
 struct Rt<'s> {
 	spec: &'s Spec,
 	sink: &'s mut Sink,
+	/// the validator already refused the emitted text: what follows (own output does not parse back, differs, ...)
+	/// restates the same defect and is not reported again
+	emitted_invalid: bool,
 }
 
 impl Rt<'_> {
@@ -497,11 +500,15 @@ impl Rt<'_> {
 		self.spec.type_name()
 	}
 	fn bad(&mut self, sig: String, detail: String, text: Option<&str>) {
+		if self.emitted_invalid && !sig.starts_with("invalid-emitted/") {
+			return;
+		}
 		let spec = self.spec;
 		self.sink.push(sig, detail, || json!({"part": "roundtrip", "spec": spec, "emitted": text}));
 	}
 	fn faults(&mut self, faults: Faults, text: &str) {
 		let ty = self.ty();
+		self.emitted_invalid |= !faults.is_empty();
 		for (rule, detail) in faults {
 			self.bad(format!("invalid-emitted/{ty}/{rule}"), detail, Some(text));
 		}
@@ -543,6 +550,9 @@ impl Rt<'_> {
 			self.differs("error-message", format!("message {:?} became {:?}", x.message(), y.message()), text);
 		}
 		let (dx, dy) = (x.data().map(|d| d.get()), y.data().map(|d| d.get()));
+		if self.emitted_invalid {
+			return false;
+		}
 		if dx == Some("null") && dy.is_none() {
 			null_lost = true;
 			let spec_all = self.spec;
@@ -873,7 +883,7 @@ impl Rt<'_> {
 }
 
 fn run_spec(spec: &Spec, sink: &mut Sink) -> CaseOut {
-	let r = catch_unwind(AssertUnwindSafe(|| Rt { spec, sink: &mut *sink }.run()));
+	let r = catch_unwind(AssertUnwindSafe(|| Rt { spec, sink: &mut *sink, emitted_invalid: false }.run()));
 	match r {
 		Ok(o) => o,
 		Err(_) => {
